@@ -18,16 +18,17 @@
 static unsigned g_randctr;
 int rand (void) { g_randctr = g_randctr * 1103515245u + 12345u; return (int) ((g_randctr >> 16) & 0x7fff); }
 
-enum { S_CREATE, S_SET, S_BUILD, S_DWS, S_SAS, S_FIN, S_QUERY, S_CTRL, S_RELEASE, S_CASCADE, S_BUILDALL };	/* S_CASCADE: one atomic step submitting all sources but one in peeling-cascade order; S_BUILDALL: all repair symbols */
+enum { S_CREATE, S_SET, S_BUILD, S_DWS, S_SAS, S_FIN, S_QUERY, S_CTRL, S_RELEASE, S_CASCADE, S_BUILDALL, S_SETCB };	/* S_CASCADE: one atomic step submitting all sources but one in peeling-cascade order; S_BUILDALL: all repair symbols */
 typedef struct { int kind; uint64_t a; } step_t;
-#define MAXSTEP 8
+#define MAXSTEP 9
+#define MAXSCR 128
 typedef struct {
 	const char *name;
 	int codec, role, k, r, len, m, N1, seed, verbosity;
 	int nsteps; step_t st[MAXSTEP];
 } script_t;
 
-static script_t SCR[32]; static int NSCR;
+static script_t SCR[MAXSCR]; static int NSCR, NCORE;	/* the first NCORE scripts are the hand-written ones (used for triples and quadruples too) */
 static uint64_t (*BASE)[MAXSTEP];	/* baseline per-step trace hashes, shared memory */
 static int st_states, st_trans, st_exec, st_dn, st_pairs, st_triples, st_quads;
 
@@ -38,7 +39,26 @@ typedef struct {
 	int *order; int norder;	/* S_CASCADE submission order (from the reference matrix) */
 	int key_repair;		/* ESI of the repair symbol of the first equation of the missing source */
 	uint64_t trace[MAXSTEP];
+	uint64_t cbhash; int shared_sym;	/* callbacks seen since the last step (folded into the next step's observation) */
+	unsigned char **cbbuf;		/* buffers handed out by this instance's source callback */
 } inst_t;
+
+
+/* decoded-symbol callbacks of an instance: the context is the instance, every invocation is folded into the trace */
+static void *indep_src_cb (void *ctx, UINT32 size, UINT32 esi)
+{
+	inst_t *x = ctx;
+	x->cbhash = vf_mix64 (x->cbhash ^ ((uint64_t) size << 32 | esi) ^ 0x5151u);
+	if ((int) esi >= x->s->k) return NULL;
+	if (!x->cbbuf[esi]) x->cbbuf[esi] = calloc (1, (size_t) x->s->len + 1);
+	return x->cbbuf[esi];
+}
+static void *indep_rep_cb (void *ctx, UINT32 size, UINT32 esi)
+{
+	inst_t *x = ctx;
+	x->cbhash = vf_mix64 (x->cbhash ^ ((uint64_t) size << 32 | esi) ^ 0xA7A7u);
+	return NULL;
+}
 
 static void gen_codeword (const script_t *s, unsigned char **sym)
 {
@@ -70,6 +90,7 @@ static void inst_init (inst_t *x, const script_t *s)
 	memset (x, 0, sizeof *x);
 	x->s = s;
 	x->sym = calloc ((size_t) n, sizeof (void *)); x->tab = calloc ((size_t) n, sizeof (void *)); x->src = calloc ((size_t) s->k, sizeof (void *)); x->lib_built = calloc ((size_t) n, sizeof (void *));
+	x->cbbuf = calloc ((size_t) s->k + 1, sizeof (void *));
 	for (i = 0; i < n; i++) x->sym[i] = calloc (1, (size_t) s->len);
 	gen_codeword (s, x->sym);
 	if (s->codec == 3 && s->N1 <= s->r && s->N1 >= 3 && s->seed >= 1) {
@@ -92,9 +113,11 @@ static void inst_free (inst_t *x)
 {
 	int i, n = x->s->k + x->s->r;
 	if (x->ses) of_release_codec_instance (x->ses);
-	for (i = 0; i < x->s->k; i++) { int own = 0, j; for (j = 0; j < n; j++) if (x->src[i] == x->sym[j]) own = 1; if (x->src[i] && !own) free (x->src[i]); }
-	for (i = 0; i < n; i++) { free (x->sym[i]); free (x->lib_built[i]); }
-	free (x->sym); free (x->tab); free (x->src); free (x->lib_built); free (x->order);
+	for (i = 0; i < x->s->k; i++) { int own = 0, j; for (j = 0; j < n; j++) if (x->src[i] == x->sym[j]) own = 1; if (x->src[i] == x->cbbuf[i]) own = 1; if (x->src[i] && !own) free (x->src[i]); }
+	for (i = 0; i < n; i++) { if (!x->shared_sym) free (x->sym[i]); free (x->lib_built[i]); }
+	for (i = 0; i < x->s->k; i++) free (x->cbbuf[i]);
+	if (!x->shared_sym) free (x->sym);
+	free (x->cbbuf); free (x->tab); free (x->src); free (x->lib_built); free (x->order);
 }
 
 /* execute the next call of the instance; returns the observation hash of this step */
@@ -133,7 +156,7 @@ static uint64_t inst_step (inst_t *x)
 		vf_h_u64 (&h, c ? 1 : 0);
 		for (i = 0; i < s->k; i++) x->src[i] = NULL;
 		st = of_get_source_symbols_tab (x->ses, x->src);
-		if (st == OF_STATUS_OK) for (i = 0; i < s->k; i++) { vf_h_u64 (&h, x->src[i] ? 1 : 0); if (x->src[i]) vf_h_bytes (&h, x->src[i], (size_t) s->len); }
+		if (st == OF_STATUS_OK) for (i = 0; i < s->k; i++) { vf_h_u64 (&h, !x->src[i] ? 0 : x->src[i] == x->sym[i] ? 1 : x->src[i] == x->cbbuf[i] ? 2 : 3); if (x->src[i]) vf_h_bytes (&h, x->src[i], (size_t) s->len); }
 		break; }
 	case S_CTRL: {
 		UINT32 v = 0; bool b = false;
@@ -141,6 +164,7 @@ static uint64_t inst_step (inst_t *x)
 		st = of_get_control_parameter (x->ses, OF_CTRL_GET_MAX_N, &v, sizeof v); vf_h_u64 (&h, v); vf_h_u64 (&h, (uint64_t) st);
 		if (s->codec == 3) { st = of_get_control_parameter (x->ses, OF_CRTL_LDPC_STAIRCASE_IS_LAST_SYMBOL_NULL, &b, sizeof b); vf_h_u64 (&h, b ? 1 : 0); }
 		break; }
+	case S_SETCB: st = of_set_callback_functions (x->ses, indep_src_cb, t->a ? indep_rep_cb : NULL, x); break;
 	case S_RELEASE: st = of_release_codec_instance (x->ses); x->ses = NULL; break;
 	case S_CASCADE: for (i = 0; i < x->norder; i++) { st = of_decode_with_new_symbol (x->ses, x->sym[x->order[i]], (UINT32) x->order[i]); vf_h_u64 (&h, (uint64_t) st); } break;
 	case S_BUILDALL:
@@ -149,6 +173,7 @@ static uint64_t inst_step (inst_t *x)
 		break;
 	}
 	vf_h_u64 (&h, (uint64_t) st);
+	vf_h_u64 (&h, x->cbhash); x->cbhash = 0;	/* callbacks this call triggered */
 	x->trace[x->pc] = h.a ^ h.b;
 	x->pc++;
 	return h.a ^ h.b;
@@ -217,6 +242,28 @@ static void build_catalogue (void)
 	s = new_script ("ldpc-decoder-long-cascade", 3, OF_DECODER, 330, 330, 4, 0, 3, 6, 0); add (s, S_CREATE, 0); add (s, S_SET, 0); add (s, S_CASCADE, 0xFFFFFFFFu); add (s, S_DWS, 0xFFFFFFFFu); add (s, S_QUERY, 0); add (s, S_RELEASE, 0);
 	s = new_script ("ldpc-encoder-wide-rows", 3, OF_ENCODER, 300, 3, 4, 0, 3, 4, 0); add (s, S_CREATE, 0); add (s, S_SET, 0); add (s, S_BUILDALL, 0); add (s, S_RELEASE, 0);
 	s = new_script ("ldpc-rejected-seed", 3, OF_ENCODER, 5, 4, 4, 0, 3, 0, 0); add (s, S_CREATE, 0); add (s, S_SET, 0); add (s, S_RELEASE, 0);
+	/* decoders with callbacks (source + repair callback, source only): per-session callback state */
+	s = new_script ("rs28-decoder-callbacks", 1, OF_DECODER, 2, 1, 8, 8, 0, 0, 0); add (s, S_CREATE, 0); add (s, S_SET, 0); add (s, S_SETCB, 1); add (s, S_DWS, 1); add (s, S_DWS, 2); add (s, S_QUERY, 0); add (s, S_RELEASE, 0);
+	s = new_script ("rs2m8-decoder-callbacks", 2, OF_DECODER, 3, 2, 8, 8, 0, 0, 0); add (s, S_CREATE, 0); add (s, S_SET, 0); add (s, S_SETCB, 1); add (s, S_DWS, 4); add (s, S_DWS, 2); add (s, S_DWS, 3); add (s, S_QUERY, 0); add (s, S_RELEASE, 0);
+	s = new_script ("ldpc-decoder-callbacks", 3, OF_DECODER, 2, 3, 8, 0, 3, 1, 0); add (s, S_CREATE, 0); add (s, S_SET, 0); add (s, S_SETCB, 1); add (s, S_DWS, 0); add (s, S_DWS, 2); add (s, S_FIN, 0); add (s, S_QUERY, 0); add (s, S_RELEASE, 0);
+	s = new_script ("ldpc-decoder-source-callback-only", 3, OF_DECODER, 2, 3, 8, 0, 3, 1, 0); add (s, S_CREATE, 0); add (s, S_SET, 0); add (s, S_SETCB, 0); add (s, S_DWS, 3); add (s, S_DWS, 4); add (s, S_DWS, 2); add (s, S_QUERY, 0); add (s, S_RELEASE, 0);
+	NCORE = NSCR;
+	{	/* systematic families (pairs only): for each Reed-Solomon codec, 4 shapes sharing k or n-k, as encoder, as decoder fed
+		 * the highest ESIs, and as one session that encodes and then decodes */
+		static const int shp[4][2] = {{2, 1}, {2, 2}, {3, 2}, {3, 4}};
+		static char names[48][40];
+		int ci, pi, ro, q, ni = 0;
+		for (ci = 0; ci < 3; ci++) for (pi = 0; pi < 4; pi++) for (ro = 0; ro < 3; ro++) {
+			int codec = ci == 0 ? 1 : 2, m = ci == 2 ? 4 : 8, k = shp[pi][0], r = shp[pi][1], n = k + r;
+			snprintf (names[ni], sizeof names[ni], "%s-%s-k%d-n%d", ci == 0 ? "rs28" : ci == 1 ? "rs2m8" : "rs2m4", ro == 0 ? "enc" : ro == 1 ? "dec" : "encdec", k, n);
+			s = new_script (names[ni], codec, ro == 0 ? OF_ENCODER : ro == 1 ? OF_DECODER : OF_ENCODER_AND_DECODER, k, r, 6, m, 0, 0, 0); ni++;
+			add (s, S_CREATE, 0); add (s, S_SET, 0);
+			if (ro == 0) { add (s, S_BUILD, (uint64_t) (n - 1)); if (r > 1) add (s, S_BUILD, (uint64_t) k); }
+			if (ro == 2) add (s, S_BUILD, (uint64_t) (n - 1));
+			if (ro != 0) { for (q = 0; q < k && q < 3; q++) add (s, S_DWS, (uint64_t) (n - 1 - q)); add (s, S_QUERY, 0); }
+			add (s, S_RELEASE, 0);
+		}
+	}
 }
 
 /* ------------------------------------------------------------------ baseline (script alone, pristine process) */
@@ -251,19 +298,25 @@ static void run_schedule (const combo_t *c, const unsigned char *sched, int len)
 	cs[l] = 0;
 	memcpy (vf_slot (), cs, sizeof cs);
 	for (i = 0; i < c->ns; i++) inst_init (&x[i], &SCR[c->sc[i]]);
+	/* two sessions running the same script are fed from the SAME application buffers (one packet handed to two decoders) */
+	for (i = 1; i < c->ns; i++) for (j = 0; j < i; j++) if (c->sc[i] == c->sc[j] && !x[i].shared_sym) {
+		int q, nn = x[i].s->k + x[i].s->r;
+		for (q = 0; q < nn; q++) free (x[i].sym[q]);
+		free (x[i].sym); x[i].sym = x[j].sym; x[i].shared_sym = 1;
+	}
 	for (i = 0; i < len; i++) inst_step (&x[sched[i]]);
 	for (i = 0; i < c->ns; i++) {
 		const script_t *s = x[i].s;
 		for (j = 0; j < s->nsteps; j++)
 			if (x[i].trace[j] != BASE[c->sc[i]][j]) {
-				static const char *kn[] = {"create", "set_fec_parameters", "build", "decode_with_new_symbol", "set_available_symbols", "finish_decoding", "query", "get_control_parameter", "release", "cascade-of-decode_with_new_symbol", "build-all"};
+				static const char *kn[] = {"create", "set_fec_parameters", "build", "decode_with_new_symbol", "set_available_symbols", "finish_decoding", "query", "get_control_parameter", "release", "cascade-of-decode_with_new_symbol", "build-all", "set_callback_functions"};
 				char sig[200];
 				snprintf (sig, sizeof sig, "script=%s|diverges-at=%s|with=%s", s->name, kn[s->st[j].kind], c->ns == 2 ? SCR[c->sc[1 - i]].name : "two-others");
 				vf_viol ("C12", sig, "%s", cs);
 				break;
 			}
-		inst_free (&x[i]);
 	}
+	for (i = c->ns - 1; i >= 0; i--) inst_free (&x[i]);	/* sharers of a buffer set before its owner */
 	vf_stat_add (st_exec, 1); vf_stat_add (st_trans, len);
 }
 
@@ -335,12 +388,12 @@ static void item_replay (long it, void *arg)
 static void build_combos (int thorough)
 {
 	int a, b, c;
-	CB = calloc (16384, sizeof (combo_t));
+	CB = calloc (65536, sizeof (combo_t));
 	for (a = 0; a < NSCR; a++) for (b = a; b < NSCR; b++) { CB[NCB].ns = 2; CB[NCB].sc[0] = a; CB[NCB].sc[1] = b; NCB++; }
-	for (a = 0; a < NSCR; a++) for (b = a; b < NSCR; b++) for (c = b; c < NSCR; c++) { if (!thorough && a == b && b == c) continue; if (SCR[a].k >= 300 || SCR[b].k >= 300 || SCR[c].k >= 300) { if (!(thorough && a != b && b != c)) continue; } CB[NCB].ns = 3; CB[NCB].sc[0] = a; CB[NCB].sc[1] = b; CB[NCB].sc[2] = c; NCB++; }
+	for (a = 0; a < NCORE; a++) for (b = a; b < NCORE; b++) for (c = b; c < NCORE; c++) { if (!thorough && a == b && b == c) continue; if (SCR[a].k >= 300 || SCR[b].k >= 300 || SCR[c].k >= 300) { if (!(thorough && a != b && b != c)) continue; } CB[NCB].ns = 3; CB[NCB].sc[0] = a; CB[NCB].sc[1] = b; CB[NCB].sc[2] = c; NCB++; }
 	{	/* four sessions alive at once: every set of four distinct scripts, each script run in one or two pieces (<= 3 / 4 switches) */
 		int d;
-		for (a = 0; a < NSCR; a++) for (b = a + 1; b < NSCR; b++) for (c = b + 1; c < NSCR; c++) for (d = c + 1; d < NSCR; d++) {
+		for (a = 0; a < NCORE; a++) for (b = a + 1; b < NCORE; b++) for (c = b + 1; c < NCORE; c++) for (d = c + 1; d < NCORE; d++) {
 			if (!thorough && ((a + b + c + d) % 3)) continue;
 			if (SCR[a].k >= 300 || SCR[b].k >= 300 || SCR[c].k >= 300 || SCR[d].k >= 300) continue;
 			CB[NCB].ns = 4; CB[NCB].sc[0] = a; CB[NCB].sc[1] = b; CB[NCB].sc[2] = c; CB[NCB].sc[3] = d; CB[NCB].maxsw = thorough ? 4 : 3; NCB++;
@@ -356,14 +409,14 @@ int main (int argc, char **argv)
 	st_states = vf_stat_id ("states"); st_trans = vf_stat_id ("transitions"); st_exec = vf_stat_id ("executions"); st_dn = vf_stat_id ("distinct_nontrivial");
 	st_pairs = vf_stat_id ("pairs"); st_triples = vf_stat_id ("triples"); st_quads = vf_stat_id ("quadruples");
 	build_catalogue ();
-	BASE = mmap (NULL, sizeof (uint64_t) * MAXSTEP * 32, PROT_READ | PROT_WRITE, MAP_SHARED | MAP_ANONYMOUS, -1, 0);
+	BASE = mmap (NULL, sizeof (uint64_t) * MAXSTEP * MAXSCR, PROT_READ | PROT_WRITE, MAP_SHARED | MAP_ANONYMOUS, -1, 0);
 	for (a = 0; a < NSCR; a++) {
 		int rc = vf_run_isolated (baseline_child, a, NULL, 60, NULL, NULL, 0);
 		if (rc != 0) { vf_viol ("C12", "kind=script-alone-crashes", "scripts=%d schedule=%s", a, "0000000"); }
 	}
 	/* a second baseline in the same pristine way must agree (determinism of the baseline itself) */
 	{
-		uint64_t keep[32][MAXSTEP];
+		static uint64_t keep[MAXSCR][MAXSTEP];
 		memcpy (keep, BASE, sizeof keep);
 		for (a = 0; a < NSCR; a++) { vf_run_isolated (baseline_child, a, NULL, 60, NULL, NULL, 0); if (memcmp (keep[a], BASE[a], sizeof keep[a])) vf_viol ("MACHINERY", "kind=baseline-not-deterministic", "script %s", SCR[a].name); }
 	}
